@@ -49,8 +49,8 @@ def run(chk):
     quick = chk.tier == "quick"
     chk.rule = ("trees: curated rule triggers (every identity/annihilator on either side, int and float operands, "
                 "short-circuit, constant branches/loops, self-assignment) + seeded random well-typed statement trees "
-                "(depth<=3) over literals {0,1,2,-1,0.0,1.0,-0.0,0.5,2.5,true,false} and typed variables; each run on 6 "
-                "environments over {-2^31,-1,0,1,2^20,2^31-1} x {0.0,-0.0,0.5,1.0,-2.5,2^1023}; a case is non-trivial when "
+                "(depth<=3) over literals {0,1,2,-1,0.0,1.0,-0.0,0.5,1.5,2.5,0.1,0.7,3.0,true,false} plus curated nested non-dyadic literals and counting loops and typed variables; each run on 8 "
+                "environments over {-2^31,-1,0,1,2,3,7,2^20,2^31-1} x {0.0,-0.0,0.5,1.0,-2.5,2.5,3,5,7,10,2^1023}; a case is non-trivial when "
                 "peephole changes the tree and the original completes on at least one environment; kernels: swept "
                 "problems, unoptimised vs optimised IR on the machine vs LLVM JIT")
     chk.trusted += [
